@@ -32,10 +32,20 @@ func c19ArgvCase(c *Ctx, cs *Case) {
 		}
 	}
 	args := []string{}
+	cwd := ""
 	for _, a := range cs.Argv {
-		args = append(args, filepath.Join(dir, a))
+		if strings.HasPrefix(a, "-") {
+			cwd = dir // names that begin with a dash are given as they are, relative to the working directory
+		}
 	}
-	o := RunCLI(CLIOpts{Bin: c.Bin, Args: args, Stdin: cs.Stdin, Dir: c.Scratch})
+	for _, a := range cs.Argv {
+		if cwd != "" {
+			args = append(args, a)
+		} else {
+			args = append(args, filepath.Join(dir, a))
+		}
+	}
+	o := RunCLI(CLIOpts{Bin: c.Bin, Args: args, Stdin: cs.Stdin, Dir: c.Scratch, Cwd: cwd})
 	c.Count("cli_runs", 1)
 	if o.TimedOut {
 		c.Inconclusive("CLI watchdog")
@@ -196,6 +206,16 @@ func c19Run(c *Ctx) {
 		{"missing-file", "unreadable", []string{"missing.bn"}, nil, ""},
 		{"directory-named-d.bn", "unreadable", []string{"d.bn"}, []string{"d.bn/"}, ""},
 		{"missing-dir", "unreadable", []string{"nodir/a.bn"}, nil, ""},
+		// arguments are file names, never options: a leading dash changes nothing
+		{"double-dash-then-script", "usage64", []string{"--", "a.bn"}, []string{"a.bn"}, ""},
+		{"dash-h", "usage64", []string{"-h"}, nil, ""},
+		{"double-dash-version", "usage64", []string{"--version"}, nil, ""},
+		{"dash-flag-then-script", "usage64", []string{"-v", "a.bn"}, []string{"a.bn"}, ""},
+		{"lone-dash", "usage64", []string{"-"}, nil, ""},
+		{"lone-double-dash", "usage64", []string{"--"}, nil, ""},
+		{"script-named-dash-run.bn", "runs", []string{"-run.bn"}, []string{"-run.bn"}, ""},
+		{"script-named-double-dash.bn", "runs", []string{"--x.bn"}, []string{"--x.bn"}, ""},
+		{"missing-dash-file.bn", "unreadable", []string{"-help.bn"}, nil, ""},
 	}
 	for _, s := range shapes {
 		if c.Mine() {
@@ -277,6 +297,8 @@ func c19Run(c *Ctx) {
 		{"syntax-declaration-as-else-body", IfElse("1 > 2", Print("1"), Var("st", "1"))}, {"syntax-declaration-as-for-body", For(";", False(), "", Var("st", "1"))},
 		// characters that merely look like blanks start no token
 		{"lexical-nbsp", Print("1") + "\u00a0" + Print("2")}, {"lexical-em-space", "\u2003" + Print("1")}, {"lexical-form-feed", Print("1") + "\f" + Print("2")}, {"lexical-nel", Print("1") + "\u0085"}, {"lexical-ideographic-space", Var("q", "1") + "\u3000" + Print("q")},
+		// an infinite or fractional operand of a bitwise operator is a runtime error like any other
+		{"runtime-bitwise-infinite", Print("(10 ** 400) | 0")}, {"runtime-complement-infinite", Var("h", "0 - 10 ** 400") + " " + Print("~h")}, {"runtime-shift-fraction", Print("1 << 0.5")},
 	}
 	for _, t := range tails {
 		for ncalls := 0; ncalls <= 4; ncalls++ {
